@@ -65,6 +65,8 @@ def _yaml_for(case):
         cfg["solution"] = {k: float(v) for k, v in case["solution"].items()}
     if case.get("kinetics"):
         cfg["kinetics"] = {k: float(v) for k, v in case["kinetics"].items()}
+    if case.get("water"):
+        cfg["water"] = {k: float(v) for k, v in case["water"].items()}
     return cfg
 
 
@@ -1040,6 +1042,15 @@ def standard_cases(tier, seed=0):
         # solvents whose melting point is not 0 C (both signs): T_m enters the latent-heat term
         _base("shelf", 0.01, 0.04, 1000, 200, solution={"T_eq": -1.0}),
         _base("jacket", 0.015, 0.03, 1000, 350, solution={"T_eq": 0.8}),
+        # configured SOLUTIONS (the model takes its constants from the configured object): dilute (depression 0.055 K),
+        # concentrated with other cryoscopic constant / molar mass / melting point, other heat capacities
+        _base("shelf", 0.01, 0.04, 1000, 200, solution={"solid_fraction": 0.01}),
+        _base("shelf", 0.01, 0.04, 1000, 200, dim="spatial_1D", solution={"solid_fraction": 0.01}),
+        _base("jacket", 0.015, 0.03, 1000, 400, start=8,
+              solution={"solid_fraction": 0.2, "k_f": 1.2, "M_s": 0.18, "T_eq": 3.82, "cp_s": 1500},
+              water={"cp_w": 4000, "cp_i": 2000}),
+        _base("VISF", 0.01, 0.04, 1000, 200, dim="spatial_1D",
+              solution={"solid_fraction": 0.2, "k_f": 1.2, "M_s": 0.18}),
         # coarse-grid Biot number K_shelf*dz/lambda > 1 in 1D (the 2D sibling is the 20 x 60 mm case above)
         _base("shelf", 0.02, 0.06, 2000, 600, dim="spatial_1D"),
         # long processes: > 10 000 steps in total (cooling rows thinned out), < 10 000 after nucleation
